@@ -89,6 +89,10 @@ func (c *Ctx) captureFamily(name string, export bool) {
 	}
 	c.NoPath("capture/"+short+"/nothing-after-write-release", f.name, relWrite, capture, 1,
 		"after the WRITE lock was released none of the captured quantities is read again", "the page loop must use the captured size and overlay, not the live ones")
+	if f.export {
+		c.LockAt("capture/"+short+"/no-checkpoint-window", f.name, relWrite, map[string]string{"ckpt": "S", "recover": "S", "read0": "S", "read1": "S", "read2": "S", "read3": "S", "read4": "S"}, nil, 1,
+			"when Export gives up the temporary WRITE lock it already holds CKPT, RECOVER and the five READ locks shared", "between releasing WRITE and holding the READ/CKPT locks a commit followed by a checkpoint rewrites database pages underneath the captured position; Export has no self-check (WriteSnapshotTo compares the checksum and fails instead), so the export would report position N with pages of N+1")
+	}
 	c.Before("capture/"+short+"/write-released", f.name, p.PlainCalls("io.ReadFull"), relWrite, 1, "the WRITE lock is released before pages are read", "holding it for the whole snapshot blocks all writers")
 
 	// page reads
